@@ -1171,7 +1171,7 @@ impl JoinReorder {
             for (name, (lo, hi)) in bands {
                 if let Some(cs) = st.column_stats.get(&name) {
                     if let (Some(min), Some(max)) = (cs.min_i64, cs.max_i64) {
-                        let width = (max - min) as f64;
+                        let width = max as f64 - min as f64;
                         let band = ((hi - lo) / width).clamp(1e-4, 1.0);
                         sel *= band;
                     }
